@@ -142,6 +142,20 @@ impl StdWriter {
         }
     }
 }
+// Takes the lock for each write
+struct LockedWriter<'a>(&'a Mutex<BufWriter<StdStream>>);
+impl Write for LockedWriter<'_> {
+    fn write(&mut self, buf: &[u8]) -> std::io::Result<usize> {
+        self.0.lock().map_err(|_e| io_err("Poison"))?.write(buf)
+    }
+    fn write_all(&mut self, buf: &[u8]) -> std::io::Result<()> {
+        self.0.lock().map_err(|_e| io_err("Poison"))?.write_all(buf)
+    }
+    fn flush(&mut self) -> std::io::Result<()> {
+        self.0.lock().map_err(|_e| io_err("Poison"))?.flush()
+    }
+}
+
 impl LogWriter for StdWriter {
     #[inline]
     fn write(&self, now: &mut DeferredNow, record: &Record) -> std::io::Result<()> {
@@ -162,12 +176,14 @@ impl LogWriter for StdWriter {
             InnerStdWriter::Buffered(m_w) => {
                 #[cfg(flexi_logger_verif)]
                 crate::verif_hooks::sync_op(crate::verif_hooks::Op::Point("std_lock"));
-                let mut w = m_w.lock().map_err(|_e| io_err("Poison"))?;
+                // the lock is only taken for the writing, not for the formatting: formatting can
+                // itself produce log calls (e.g. in Display implementations),
+                // which would otherwise deadlock
                 write_buffered(
                     self.format,
                     now,
                     record,
-                    &mut *w,
+                    &mut LockedWriter(m_w),
                     #[cfg(test)]
                     Some(&self.validation_buffer),
                 )
